@@ -597,6 +597,38 @@ func judgeFrameDuplex(c Case) {
 	doRead := func() { id, typ, p, rerr = r.ReadPacket() }
 	doWrite := func() { werr = r.WritePacket(c.ID, c.Type, string(plOut)) }
 	size := c.PayloadLen + c.PayloadLen2
+	if c.Mode == "other-connection-writes-inside-write" {
+		// a second RCONConn of the same process sends a frame of its own at the start of the At-th Write call of this
+		// one (two sessions served side by side): connections share no state, each peer must receive its own frame
+		a2, b2 := duplex()
+		r2 := &mcnet.RCONConn{Conn: a2}
+		want2 := refrcon.Frame(c.ID2, c.Type2, plIn)
+		var werr2 error
+		a.onWrite = func(k int) {
+			if k == c.At && !fired {
+				fired = true
+				werr2 = r2.WritePacket(c.ID2, c.Type2, string(plIn))
+			}
+		}
+		if guard("duplex/WritePacket", size, c, doWrite) {
+			return
+		}
+		rep.Eval(1)
+		if fired {
+			atomic.AddInt64(&duplexFired, 1)
+		}
+		got, got2 := b.in.take(), b2.in.take()
+		pre := "duplex/" + c.Mode + "/"
+		switch {
+		case werr != nil || werr2 != nil:
+			fail(pre+"WritePacket/error", size, c, "WritePacket returned %v / %v", werr, werr2)
+		case !bytes.Equal(got, wantOut):
+			fail(pre+"WritePacket/bytes-differ-from-layout", size, c, "connection 1 sent %s while connection 2 was sending; reference layout is %s", clip(got), clip(wantOut))
+		case fired && !bytes.Equal(got2, want2):
+			fail(pre+"WritePacket/other-connection/bytes-differ-from-layout", size, c, "connection 2 sent %s; reference layout is %s", clip(got2), clip(want2))
+		}
+		return
+	}
 	if c.Mode == "read-inside-write" {
 		a.onWrite = func(k int) {
 			if k == c.At && !fired {
@@ -1659,11 +1691,11 @@ func main() {
 
 	// ---- frame-duplex: both directions of one RCONConn at once, interleaved at every socket call
 	nDuplex := 0
-	for _, mode := range []string{"read-inside-write", "write-inside-read"} {
+	for _, mode := range []string{"read-inside-write", "write-inside-read", "other-connection-writes-inside-write"} {
 		for _, n1 := range []int{0, 1, 49, 300} {
 			for _, n2 := range []int{0, 3, 70, 1000} {
 				for _, chunk := range []int{0, 1, 2, 3, 5} {
-					if mode == "read-inside-write" && chunk > 1 {
+					if mode != "write-inside-read" && chunk > 1 {
 						continue
 					}
 					for at := 0; at < 8; at++ {
